@@ -26,7 +26,7 @@ ASSUMPTIONS = [
     "only the state afterwards (clean) and the other stages' outputs",
     "what a second deactivation returns or raises is not asserted; it must publish nothing and leave the state clean",
 ]
-BOUNDS = {"quick": {"depth": 6, "stages": 2, "stale_stages": 1}, "thorough": {"depth": 8, "stages": 3, "stale_stages": 2, "merge_audit_depth": 4}}
+BOUNDS = {"quick": {"depth": 6, "stages": 2, "stale_stages": 1}, "thorough": {"depth": 8, "stages": 3, "stale_stages": 2, "merge_audit_depth": 3}}
 
 SRC = '''
 def f(x):
@@ -333,8 +333,9 @@ def check_atexit(part):
 
 
 def units(tier):
-    out = [("bfs", h, False) for h in H.first_ops(System(BOUNDS[tier]["stages"]), 1)]
-    out += [("bfs", h, True) for h in H.first_ops(System(BOUNDS[tier]["stale_stages"], True), 1)]
+    n = 1 if tier == "quick" else 2  # shard by the first one / two operations
+    out = [("bfs", h, False) for h in H.first_ops(System(BOUNDS[tier]["stages"]), n)]
+    out += [("bfs", h, True) for h in H.first_ops(System(BOUNDS[tier]["stale_stages"], True), n)]
     return out + [("atexit",)]
 
 
